@@ -9,7 +9,7 @@ from ..strategies import program_strategy, spec_strategy
 from ._sim_common import frac, summarize
 
 ID = "C15"
-RULE = ("Hypothesis generates 2-3 markets (whose names are prefixes / suffixes / case variants of one another in three cases of four), a PriceLimitRule with rate r in {0.005..0.5} over a non-empty proper or full subset of "
+RULE = ("(one case in three registers an unrelated probe event with a TIMED order hook before the rule) Hypothesis generates 2-3 markets (whose names are prefixes / suffixes / case variants of one another in three cases of four), a PriceLimitRule with rate r in {0.005..0.5} over a non-empty proper or full subset of "
         "them (in half of the cases with a second rule of another rate over remaining markets, enabled or not), and scripted agents whose limit prices lie far outside, exactly on the edge of (p0*(1+-r) requested as an absolute "
         "price is approximated by integer/fractional tick offsets up to +-60 ticks), and inside the band, plus market orders. A "
         "probe event registered before the rule records, for every pending order, the asked price and p0 = "
@@ -54,6 +54,10 @@ def cases(draw, tier):
         cfg["PL2"] = {"class": "PriceLimitRule", "targetMarkets": rest[:k2], "triggerChangeRate": draw(st.sampled_from([0.01, 0.2, 0.4])),
                       "enabled": draw(st.sampled_from([True, True, False]))}
     cfg["P"] = {"class": "VProbeEvent", "hooks": [["order", True, None, None, None], ["execution", False, None, None, None]]}
+    timed = draw(st.integers(0, 2)) == 0
+    if timed:
+        # an unrelated event with a TIMED order hook, registered before the rule (whose own hook is untimed)
+        cfg["PT"] = {"class": "VProbeEvent", "hooks": [["order", True, sorted(draw(st.sets(st.integers(0, 12), min_size=1, max_size=4))), None, None]]}
     ns = draw(st.integers(1, 3))
     pls = draw(st.integers(0, ns - 1))
     pls2 = draw(st.integers(0, ns - 1))
@@ -61,7 +65,7 @@ def cases(draw, tier):
         cfg["simulation"]["sessions"].append({"sessionName": s, "iterationSteps": draw(st.integers(1, 8 if tier == "quick" else 30)), "withOrderPlacement": True,
                                               "withOrderExecution": draw(st.sampled_from([True, True, False])), "withPrint": False,
                                               "maxNormalOrders": draw(st.integers(1, 5)),
-                                              "events": (["P"] if s == 0 else []) + (["PL"] if s == pls else []) + (["PL2"] if second and s == pls2 else [])})
+                                              "events": (["P"] if s == 0 else []) + (["PT"] if timed and s == 0 else []) + (["PL"] if s == pls else []) + (["PL2"] if second and s == pls2 else [])})
     return {"config": cfg, "seed": draw(st.integers(0, 2**31 - 1))}
 
 
